@@ -1110,19 +1110,23 @@ func (r *Reader) parseHeadersAndFooters() {
 		return
 	}
 
-	// Relationship types for headers and footers
+	// Relationship types for headers and footers. A document of the Strict
+	// conformance class (ISO/IEC 29500 Strict) names the same relationships
+	// in the purl.oclc.org namespace.
 	const (
-		headerRelType = "http://schemas.openxmlformats.org/officeDocument/2006/relationships/header"
-		footerRelType = "http://schemas.openxmlformats.org/officeDocument/2006/relationships/footer"
+		headerRelType       = "http://schemas.openxmlformats.org/officeDocument/2006/relationships/header"
+		footerRelType       = "http://schemas.openxmlformats.org/officeDocument/2006/relationships/footer"
+		headerRelTypeStrict = "http://purl.oclc.org/ooxml/officeDocument/relationships/header"
+		footerRelTypeStrict = "http://purl.oclc.org/ooxml/officeDocument/relationships/footer"
 	)
 
 	for _, rel := range r.rels.Relationships {
 		switch rel.Type {
-		case headerRelType:
+		case headerRelType, headerRelTypeStrict:
 			if text := r.extractHeaderFooterText("word/" + rel.Target); text != "" {
 				r.headerTexts = append(r.headerTexts, text)
 			}
-		case footerRelType:
+		case footerRelType, footerRelTypeStrict:
 			if text := r.extractHeaderFooterText("word/" + rel.Target); text != "" {
 				r.footerTexts = append(r.footerTexts, text)
 			}
